@@ -82,6 +82,38 @@ open PMV PMV.HoistCollect in
 theorem function_level_slots_collected (ts : List Expr) (v : Expr) : colS false (.assign ts v) = colEs ts ++ colE v := by
   simp [colS]
 
+open PMV PMV.HoistCollect in
+/-- T06.5a: every collected occurrence is a reference of exactly one hoisted binding — the reference counts of the bindings add
+    up to the number of collected occurrences. -/
+theorem every_occurrence_in_one_binding (m : Module) : total (bindingsOf m) = (collect m).length := by
+  unfold bindingsOf groups
+  rw [groupsFrom_total]; simp [total]
+
+open PMV PMV.HoistCollect in
+/-- T06.5b: the binding an occurrence belongs to holds a constant of the same type and value (`HoistedValue` equality:
+    `None` / `True` / `False` themselves, strings by code points, bytes by bytes; never across types). -/
+theorem binding_value_is_the_literal (m : Module) : ∀ c ∈ collect m, ∃ e ∈ bindingsOf m, sameValue e.1 c = true :=
+  groupsFrom_covers (collect m) [] (colL_hoistable false m.body)
+
+open PMV PMV.HoistCollect in
+/-- T06.5c: the value of a hoisted binding is one of the collected occurrences (the first of its value), never anything else. -/
+theorem binding_value_is_an_occurrence (m : Module) : ∀ e ∈ bindingsOf m, e.1 ∈ collect m := by
+  intro e he
+  rcases groupsFrom_keys (collect m) [] e he with h | ⟨e', h', _⟩
+  · exact h
+  · cases h'
+
+open PMV.HoistCollect in
+/-- T06.5d: values of different types are never the same key, whatever their payload (`1 == True`, `'' == b''` style confusions). -/
+theorem different_types_never_merged (r : String) (a : List Nat) :
+    sameValue (.str r a) (.bytes r a) = false ∧ sameValue .true_ (.int 1) = false ∧ sameValue (.int 0) .false_ = false ∧
+    sameValue .none .false_ = false := by
+  simp [sameValue]
+
+open PMV PMV.HoistCollect in
+example : groups [.str "'a'" [97], .none, .str "\"a\"" [97], .bytes "b'a'" [97], .none, .true_]
+    = [(.str "'a'" [97], 2), (.none, 2), (.bytes "b'a'" [97], 1), (.true_, 1)] := by decide
+
 -- non-vacuity: a class with `__slots__` inside an `if`, a docstring, a method with a `match` and an f-string
 open PMV PMV.HoistCollect in
 example : collect ⟨[.classDef "C" [] [] [
